@@ -58,6 +58,35 @@ Theorem C15_like_re_recognises : forall ds : string,
 Proof. exact like_re_recognises. Qed.
 Print Assumptions C15_like_re_recognises.
 
+(* the same for any scalar type (binary64 included) when the overrides carry
+   no IMP: the dictionary is [upd k1 k2], i.e. the override's mat, rho, u, trcl,
+   lat and fill triple when present, the options' otherwise *)
+Theorem C15_keywords_later_wins_any_scalar : forall (T : Type) (SC : Scalar T) (e : env (T:=T))
+    (opts ovr : list string) (k1 k2 : kws (T:=T)),
+  parse_kws SC e opts = Ok k1 -> parse_kws SC e ovr = Ok k2 -> kw_head ovr ->
+  k_imp k2 = None ->
+  parse_kws SC e (opts ++ ovr) = Ok (upd SC k1 k2).
+Proof. exact @keywords_later_wins_noimp. Qed.
+Print Assumptions C15_keywords_later_wins_any_scalar.
+
+(* cellcard.split on a LIKE card as MIP hands it over (single blanks): name,
+   geometry = up to and including BUT, options = the rest — for any case of the
+   two words and provided the options do not contain "but"; LIKE_RE then finds n
+   in that geometry text *)
+Theorem C15_split_like_card : forall name L ds B rest : string,
+  all_digits name = true -> name <> EmptyString -> lower L = "like" ->
+  all_digits ds = true -> lower B = "but" -> has "but" (lower rest) = false ->
+  split_like (name ++ " " ++ L ++ " " ++ ds ++ " " ++ B ++ rest) =
+  Some (name, " " ++ L ++ " " ++ ds ++ " " ++ B, rest).
+Proof. exact split_like_card. Qed.
+Print Assumptions C15_split_like_card.
+
+Theorem C15_split_then_like_re : forall L ds B : string,
+  lower L = "like" -> all_digits ds = true -> ds <> EmptyString -> lower B = "but" ->
+  search_like (lower (" " ++ L ++ " " ++ ds ++ " " ++ B)) = Some (Z.of_N (parse_digits ds 0%N)).
+Proof. exact split_then_like_re. Qed.
+Print Assumptions C15_split_then_like_re.
+
 (* the LIKE loop: a LIKE card, at the end of a chain of any length in an acyclic
    table, is parsed as the explicit card "text of the card n stands for, then
    the BUT text" *)
